@@ -338,7 +338,12 @@ def validate(ctx, module, summ, sigfn, timeout=1800, xmx="3g", par=8):
             hist.sort(key=lambda x: x.get("i", 0))
             # the history up to and including the failing step
             hist = [x for x in hist if x.get("i", 0) <= e.get("i", 0)]
-            ctx.failures.append(dict(kind="trace", module=module, reason=reason, event=e, history=hist,
+            # the history executed just before it in the same process: context for failures that depend on
+            # what the library was asked before (replayed in front of the failing history, not judged)
+            h0 = e.get("h", 0)
+            prev = [x for x in evs if h0 - 8 <= x.get("h", -1) < h0]
+            prev.sort(key=lambda x: (x.get("h", 0), x.get("i", 0)))
+            ctx.failures.append(dict(kind="trace", module=module, reason=reason, event=e, history=hist, context=prev,
                                      sig=sigfn(e, reason)))
             nfail += 1
     if total != summ["events"]:
@@ -398,15 +403,17 @@ def known_match(known, sig):
     return None
 
 
-def write_history_twice(path, history):
-    """The failing history, executed twice in one fresh process: a failure that needs library-internal
-    state left behind by earlier calls (pools, reused buffers) shows on the second pass."""
+def write_history_twice(path, history, context=None):
+    """The failing history (preceded by the history that ran just before it), executed twice in one fresh
+    process: a failure that needs library-internal state left behind by earlier calls (pools, reused
+    buffers) shows again."""
     with open(path, "w") as f:
         for _ in range(2):
-            for i, e in enumerate(history):
-                e = dict(e)
-                e["first"] = i == 0
-                f.write(json.dumps(e) + "\n")
+            for hist in (context or [], history):
+                for e in hist:
+                    e = dict(e)
+                    e["first"] = e.get("i", 0) == 0
+                    f.write(json.dumps(e) + "\n")
 
 
 def confirm(ctx, failure, trace_module, sigfn):
@@ -416,7 +423,7 @@ def confirm(ctx, failure, trace_module, sigfn):
     h = hashlib.sha1(failure["sig"].encode()).hexdigest()[:10]
     inp = os.path.join(ctx.dir, "confirm-%s.in.ndjson" % h)
     outp = os.path.join(ctx.dir, "confirm-%s.out.ndjson" % h)
-    write_history_twice(inp, failure["history"])
+    write_history_twice(inp, failure["history"], failure.get("context"))
     rc, o = sh([BIN, "replay", ctx.pid, "-in", inp, "-out", outp], timeout=600)
     if rc != 0:
         raise Broken("replay failed: " + o[-2000:])
@@ -433,7 +440,7 @@ def write_replay(ctx, failure):
     path = os.path.join(REPLAYS, "%s-%s.json" % (ctx.pid, h))
     with open(path, "w") as f:
         json.dump(dict(property=ctx.pid, signature=failure["sig"], reason=failure["reason"], kind=failure["kind"],
-                       module=failure.get("module"), history=failure["history"]), f)
+                       module=failure.get("module"), history=failure["history"], context=failure.get("context") or []), f)
     return path
 
 
@@ -451,8 +458,16 @@ def finish(ctx, level, rule, trace_module=None, sigfn=None, assumptions=None, ex
             continue
         if sig.startswith("harness-") or "/harness-" in sig or "harness-panic" in json.dumps(fs[0]["event"].get("panic", "")):
             raise Broken("harness produced an ill-formed event: %s: %s" % (sig, json.dumps(slim(fs[0]["event"]))[:600]))
-        if trace_module and not confirm(ctx, fs[0], trace_module, sigfn):
-            raise Broken("failure %s was not reproduced by replay" % sig)
+        if trace_module:
+            # a failure may depend on what ran before it in the process: try a few occurrences
+            ok = None
+            for cand in fs[:4]:
+                if confirm(ctx, cand, trace_module, sigfn):
+                    ok = cand
+                    break
+            if ok is None:
+                raise Broken("failure %s was not reproduced by replay" % sig)
+            fs = [ok] + [x for x in fs if x is not ok]
         violations.append((sig, fs))
     for sig, (k, n) in sorted(known_hits.items()):
         log("KNOWN-FINDING: property=%s %s [signature %s, %d occurrence(s) this run]" % (ctx.pid, k.get("what_fails", ""), sig, n))
